@@ -80,6 +80,19 @@ func runC36(c *Ctx) {
 			c.Require("C36.R1", res, mapUpd, "excise registered under DB.mu", []string{"held:DB.mu"})
 		}
 	}
+	// P1: the writer reference the ingest holds on the mutable memtable is kept
+	// until ingestApply (which releases it inside the MANIFEST critical section):
+	// it is what keeps later writes from being flushed beneath the ingest/excise.
+	if fn != nil {
+		if clo := c.ClosureWith("C36.P1", fn, CallTo("p.(*DB).ingestApply")); clo != nil {
+			fl := NewFlow(c.P).KillAfter("memtable-writer-ref-held", CallTo("p.(*memTable).writerUnref"))
+			fl.MaxDepth = 0
+			entry := emptyState()
+			entry.add("memtable-writer-ref-held")
+			res := fl.Analyze(clo, entry)
+			c.Require("C36.P1", res, CallTo("p.(*DB).ingestApply"), "the memtable writer reference is still held when ingestApply runs", []string{"memtable-writer-ref-held"})
+		}
+	}
 	// shared: C10.O3c
 	if fn != nil {
 		provSync := ImplCall(c.Iface("C10.O3c", "objs.Provider"), "objstorage.Provider", "Sync")
